@@ -73,10 +73,47 @@ func (z *Decimal) Sqrt(x *Decimal) *Decimal {
 	// very small precisions (<_DW/2).
 	//
 	// Solve 1/x² - z = 0 instead.
+	//
+	// The iteration yields an approximation of the root, and rounding an
+	// approximation is not rounding the root (√9 computed as 2.99999997 must
+	// not become 2.9999 under ToZero). Compute it with one extra digit, turn
+	// it into the root truncated to that many digits plus a sticky digit,
+	// and only then round, once, to z's precision under z's rounding mode.
+	x0 := new(Decimal).Copy(z)
+	wp := prec + 1
+	if wp < prec {
+		wp = prec // prec == MaxPrec
+	}
+	z.prec, z.mode = wp, ToZero
 	z.sqrtInverse(z)
+	z.sqrtTruncate(x0)
+	z.mode = mode
+	z.SetPrec(uint(prec))
 
-	// restore precision and re-attach halved exponent
+	// re-attach halved exponent
 	return z.SetMantExp(z, b/2)
+}
+
+// sqrtTruncate takes z ≈ √x (within a few units of the last of z.prec
+// digits, x > 0) and sets z to the largest value t of z.prec digits such that
+// t² <= x. If t² < x a digit 5 is appended to t, so that rounding z to fewer
+// digits gives the same result as rounding √x, for any rounding mode.
+func (z *Decimal) sqrtTruncate(x *Decimal) {
+	// squares of z.prec digits values are exact with twice as many digits
+	sq := new(Decimal).SetPrec(2 * uint(z.prec))
+	t := new(Decimal).SetPrec(uint(z.prec)).SetMode(ToZero)
+	z.mode = ToZero
+	// z - ulp and z + ulp are exact with z.prec digits
+	for sq.Mul(z, z).Cmp(x) > 0 {
+		z.Sub(z, NewDecimal(1, int(z.exp)-int(z.prec)))
+	}
+	for sq.Mul(t.Add(z, NewDecimal(1, int(z.exp)-int(z.prec))), t).Cmp(x) <= 0 {
+		z.Set(t)
+	}
+	if sq.Mul(z, z).Cmp(x) != 0 {
+		exp, prec := int(z.exp), int(z.prec)
+		z.SetPrec(uint(prec) + 1).Add(z, NewDecimal(5, exp-prec-1))
+	}
 }
 
 // Compute √x (to z.prec precision) by solving
